@@ -10,7 +10,7 @@ from .. import libx, gen
 
 from bitcoin.core import ValidationError
 from bitcoin.core.script import CScript, SignatureHash, RawSignatureHash
-from bitcoin.core.scripteval import VerifyScript, SCRIPT_VERIFY_P2SH
+from bitcoin.core.scripteval import VerifyScript, VerifySignature, SCRIPT_VERIFY_P2SH
 from bitcoin.wallet import CBitcoinSecret
 
 ID = 'C05'
@@ -122,14 +122,27 @@ def _keys(case):
     return [CBitcoinSecret.from_secret_bytes(SECRETS[i].to_bytes(32, 'big'), case['compressed']) for i in case['keys']]
 
 
+def _funding(spk, fj, bump=0):
+    """the transaction whose output fj['n'] carries spk (optionally with witness data of its own, which its txid ignores)"""
+    vout = [(1000 + k, b'\x51') for k in range(fj['nout'])]
+    vout[fj['n']] = (5000, spk)
+    return {'version': 2, 'vin': [(H.sha256(b'fund%d' % fj['salt']), 1, b'\x51', 0xfffffffe)], 'vout': vout,
+            'wit': [[b'w' * (1 + fj['salt'] % 3), b'']] if fj['wit'] else None, 'locktime': fj['salt'] % 500 + bump}
+
+
 def sign_case(case):
     """sign like examples/: SignatureHash -> key.sign -> scriptSig (stored in the case for exact replay)"""
-    m = W.tx_from_json(case['tx'])
     idx = case['idx']
     ht = case['ht']
     keys = _keys(case)
     pubs = [bytes(k.pub) for k in keys]
     spk, redeem, code = _template(case, pubs)
+    if case.get('funding'):
+        # the signed input really spends an output of a funding transaction (so that VerifySignature can be asked as well)
+        F = _funding(spk, case['funding'])
+        case['tx']['vin'][idx][0] = W.txid(F).hex()
+        case['tx']['vin'][idx][1] = case['funding']['n']
+    m = W.tx_from_json(case['tx'])
     tx = libx.mk_tx(m, case.get('mutable', False))
     r = libx.call('sign/sighash', SignatureHash, CScript(code), tx, idx, ht, allowed=(ValueError,))
     if r[0] == 'exc':
@@ -177,8 +190,24 @@ def check_case(case):
     if not _verify(m, idx, ssig, spk, case.get('mutable', False)):
         raise Violation('signed-input-rejected/%s' % tname, 'input %d of %d signed with ht=0x%02x (%s, %s) is rejected by VerifyScript'
                         % (idx, len(m['vin']), ht, htname, tname))
-    d0, _ = RS.legacy(code, m, idx, ht)
     cls = ['ht:' + htname, 'tmpl:' + tname]
+    if case.get('funding'):
+        # the other way in: VerifySignature(txFrom, txTo, inIdx) finds the output through the input's outpoint, i.e. through the
+        # funding transaction's TXID (its witness data plays no part), and refuses any other transaction
+        fj = case['funding']
+        m_in = dict(m, vin=list(m['vin']))
+        h_, n_, _, q_ = m_in['vin'][idx]
+        m_in['vin'][idx] = (h_, n_, ssig, q_)
+        tx_to = libx.mk_tx(m_in, case.get('mutable', False))
+        for tag, F, want_ok in (('funding', _funding(spk, fj), True), ('funding-other-witness', dict(_funding(spk, fj), wit=[[b'x', b'yy']] if not fj['wit'] else None), True),
+                                ('other-transaction', _funding(spk, fj, bump=1), False)):
+            r = libx.call('VerifySignature', VerifySignature, libx.mk_tx(F, fj['salt'] % 2 == 1), tx_to, idx, allowed=(ValidationError,))
+            if (r[0] == 'ok') != want_ok:
+                raise Violation('verifysignature/%s-%s' % (tag, 'accepted' if r[0] == 'ok' else 'rejected'),
+                                'VerifySignature(%s, spending tx, %d) %s (%s, funding tx %s witness data)' % (
+                                    tag, idx, 'accepted' if r[0] == 'ok' else 'rejected: ' + str(r[1])[:60], tname, 'with' if F['wit'] else 'without'))
+        cls.append('verifysignature' + (':witness-funding' if fj['wit'] else ''))
+    d0, _ = RS.legacy(code, m, idx, ht)
     distinct = len(set(m['vout'])) == len(m['vout']) and len(set((h, n) for h, n, _, _ in m['vin'])) == len(m['vin']) and \
         (7, b'\x52') not in m['vout']
     cls.append('table-crosscheck' if distinct else 'table-skipped-degenerate')
@@ -251,7 +280,9 @@ def s_case(draw):
     ht = draw(st.one_of(st.sampled_from(HTS), st.integers(0, 255)))
     return {'tx': tx, 'idx': draw(st.integers(0, nin - 1)), 'template': template, 'p2sh': draw(st.booleans()), 'm': m, 'n': n,
             'keys': keys, 'signers': list(draw(st.permutations(list(range(n))))), 'compressed': draw(st.booleans()), 'ht': ht,
-            'foreign': perm[3], 'mutable': draw(st.booleans())}
+            'foreign': perm[3], 'mutable': draw(st.booleans()),
+            'funding': draw(st.one_of(st.none(), st.fixed_dictionaries({'n': st.integers(0, 2), 'nout': st.just(3), 'wit': st.booleans(),
+                                                                        'salt': st.integers(0, 10 ** 6)})))}
 
 
 def coverage_gaps(classes, tier):
